@@ -91,6 +91,9 @@ func wrongTypeMuts(fields ...string) []mut {
 // flagged mustReject whose reference verdict is not "reject" is a harness bug.
 func (h *H) runMuts(base *hand, ms []mut, id string, check func(m *hand, id, note string) int) {
 	for i, mu := range ms {
+		if h.thin > 0 && (i+h.thin)%3 != 0 {
+			continue
+		}
 		m := base.clone()
 		mu.apply(m)
 		v := check(m, fmt.Sprintf("%s/mut%d", id, i), mu.name)
@@ -101,6 +104,35 @@ func (h *H) runMuts(base *hand, ms []mut, id string, check func(m *hand, id, not
 			h.res.Obs("reject_law_cases", 1)
 		} else {
 			h.res.Obs("free_mutation_cases", 1)
+		}
+	}
+}
+
+// runCross: every shape (a variant of base that carries no forbidden feature)
+// followed by every representative forbidden feature applied to that shape, so
+// that each feature is exercised in every branch of its decoder.
+func (h *H) runCross(base *hand, shapes, reps []mut, id string, check func(m *hand, id, note string) int) {
+	for si, sh := range shapes {
+		s := base.clone()
+		sh.apply(s)
+		if check(s, fmt.Sprintf("%s/shape%d", id, si), "shape "+sh.name) == wantReject {
+			h.res.Require(false, "harness: shape "+sh.name+" carries a forbidden feature")
+			continue
+		}
+		h.res.Obs("reject_law_shapes", 1)
+		for ri, rp := range reps {
+			if h.thin > 0 && (si+ri+h.thin)%3 != 0 {
+				continue
+			}
+			m := s.clone()
+			rp.apply(m)
+			v := check(m, fmt.Sprintf("%s/shape%d/rep%d", id, si, ri), "shape "+sh.name+" + "+rp.name)
+			if rp.mustReject {
+				if v != wantReject {
+					h.res.Require(false, "harness: "+rp.name+" on shape "+sh.name+" not classified as forbidden by the reference")
+				}
+				h.res.Obs("reject_law_cross_cases", 1)
+			}
 		}
 	}
 }
@@ -277,6 +309,30 @@ func (h *H) handPollReq(r *vlib.Rand, id string) {
 		ms = append(ms, mut{"clients:" + raw, false, setField("Clients", field{k: fRaw, raw: raw})})
 	}
 	h.runMuts(base, ms, id, h.checkHandPollReq)
+
+	// sid and NAT checks in every shape of the message: with and without the
+	// relay pattern member, every accepted version spelling, type and clients
+	var shapes []mut
+	for _, v := range append(append([]string(nil), docVersions...), freeVersions...) {
+		shapes = append(shapes, mut{"version:" + v, false, setField("Version", fs("Version", v))})
+	}
+	shapes = append(shapes,
+		mut{"pattern:absent", false, setField("AcceptedRelayPattern", field_(fAbsent))},
+		mut{"pattern:empty", false, setField("AcceptedRelayPattern", fs("AcceptedRelayPattern", ""))},
+		mut{"pattern:present", false, setField("AcceptedRelayPattern", fs("AcceptedRelayPattern", "snowflake.torproject.net$"))},
+		mut{"pattern:null", false, setField("AcceptedRelayPattern", field_(fNull))},
+		mut{"type:absent", false, setField("Type", field_(fAbsent))},
+		mut{"type:known", false, setField("Type", fs("Type", "standalone"))},
+		mut{"type:unrecognised", false, setField("Type", fs("Type", "zzz"))},
+		mut{"clients:absent", false, setField("Clients", field_(fAbsent))},
+		mut{"clients:max", false, setField("Clients", fnum("Clients", 1<<63-1))},
+		mut{"nat:absent", false, setField("NAT", field_(fAbsent))},
+	)
+	reps := missingMuts("Sid")
+	for _, v := range []string{"Unknown", "symmetric", " restricted", "нет", longBadNAT} {
+		reps = append(reps, mut{"nat:" + clipS(v), true, setField("NAT", fs("NAT", v))})
+	}
+	h.runCross(base, shapes, reps, id, h.checkHandPollReq)
 }
 
 // ---- proxy poll response ----------------------------------------------------------
@@ -303,77 +359,108 @@ func genHandPollResp(r *vlib.Rand) *hand {
 	return m
 }
 
-func refHandPollResp(m *hand) (int, string, pollRespOut) {
+// pollRespStatusClass: the decoder has one branch per status class, and the
+// property's "NAT type outside the three names" is not limited to any of them.
+func pollRespStatusClass(st *field) string {
+	switch {
+	case st.k == fRaw:
+		return "wrong-type"
+	case st.missing():
+		return "no-status"
+	case st.s == "client match":
+		return "match"
+	case st.s == "no match":
+		return "no-match"
+	}
+	return "other-status"
+}
+
+// natFeatSuffix keeps the match case's signature as it was and names the
+// other status classes (for "other-status" and "no-status" the decoder reports
+// an error value whatever the NAT is: those cases are vacuous and are counted
+// under their own observation keys).
+var natFeatSuffix = map[string]string{"match": "", "no-match": ":no-match", "other-status": ":other-status", "no-status": ":no-status", "wrong-type": ":no-status"}
+
+type pollRespRef struct {
+	want       int
+	feat       string
+	e          pollRespOut
+	compare    bool // the returned values are specified
+	natLenient bool // "no match" with a valid NAT: that NAT or the default
+}
+
+func refHandPollResp(m *hand) pollRespRef {
 	var feats []string
 	free := false
-	var e pollRespOut
+	var x pollRespRef
 	st := m.get("Status")
 	off := m.get("Offer")
 	nat := m.get("NAT")
 	rel := m.get("RelayURL")
-	if rel.k == fNull || rel.k == fRaw {
+	cls := pollRespStatusClass(st)
+	if rel.k == fNull || rel.k == fRaw || off.k == fRaw || cls == "wrong-type" {
 		free = true
 	}
-	switch {
-	case st.k == fStr && st.s == "client match":
-		refRequired(off, "missing-offer", &feats, &free)
-		e.offer = off.str()
-		var nf []string
-		e.nat = refOptNAT(nat, &nf, &free)
-		if len(nf) > 0 {
-			if strictPollResponseNAT {
-				feats = append(feats, nf...)
-			} else {
-				free, e.nat = true, nat.s
-			}
+	var nf []string
+	natWant := refOptNAT(nat, &nf, &free)
+	if len(nf) > 0 {
+		if strictPollResponseNAT {
+			feats = append(feats, "nat-outside-names"+natFeatSuffix[cls])
+		} else {
+			free, natWant = true, nat.s
 		}
-		e.relay = rel.str()
-	case st.k == fStr && st.s == "no match" && off.k == fAbsent && nat.k == fAbsent && rel.k == fAbsent:
-		e.nat = natDefault
-	default:
-		free = true // other or missing status: not specified
-		e.nat = natDefault
-		if nat.k == fStr && nat.s != "" {
-			e.nat = nat.s
-		}
-		e.relay = rel.str()
 	}
-	w, f := verdict(feats, free)
-	return w, f, e
+	switch cls {
+	case "match":
+		refRequired(off, "missing-offer", &feats, &free)
+		x.e = pollRespOut{offer: off.str(), nat: natWant, relay: rel.str()}
+		x.compare = true
+	case "no-match":
+		x.e = pollRespOut{nat: natWant}
+		if off.k == fAbsent && rel.k == fAbsent {
+			x.compare = true
+			x.natLenient = nat.k == fStr && nat.s != ""
+		} else {
+			free = true // members the comments do not give a "no match": values not specified
+		}
+	default:
+		free = true // other or missing status: not specified (the decoder answers with an error value)
+	}
+	x.want, x.feat = verdict(feats, free)
+	return x
 }
 
 func (h *H) checkHandPollResp(m *hand, id, note string) int {
 	data := m.bytes()
 	rc := mkrec(id, nPollResp, data, note)
-	want, feat, e := refHandPollResp(m)
-	st := m.get("Status")
-	cmp := want
-	bare := m.get("Offer").k == fAbsent && m.get("NAT").k == fAbsent && m.get("RelayURL").k == fAbsent
-	if !(st.k == fStr && (st.s == "client match" || (st.s == "no match" && bare))) {
-		// unspecified statuses, or "no match" with members the comments do not
-		// give it: only totality and the post-conditions
-		if o, ok := h.decPollResp("handwritten", rc, data); ok {
-			h.postPollResp(o, rc)
+	x := refHandPollResp(m)
+	one := func(o pollRespOut, legacy bool) {
+		h.postPollResp(o, rc)
+		want, e := x.want, x.e
+		if legacy && want == wantAccept && e.relay != "" {
+			want = wantFree
 		}
-		if o, ok := h.decPollRespLegacy("handwritten", rc, data); ok {
-			h.postPollResp(o, rc)
+		if !x.compare && want != wantReject {
+			// nothing specified about the values: only the verdict is recorded
+			h.judge(nPollResp, wantFree, x.feat, "handwritten", o.err, rc)
+			return
 		}
-		return want
+		if x.natLenient && o.err == nil && o.nat == natDefault {
+			e.nat = natDefault
+		}
+		h.judgePollResp(o, want, x.feat, e, rc, "handwritten", legacy)
 	}
 	if o, ok := h.decPollResp("handwritten", rc, data); ok {
-		h.postPollResp(o, rc)
-		h.judgePollResp(o, cmp, feat, e, rc, "handwritten", false)
+		one(o, false)
+		if x.want == wantAccept && x.e.nat == natDefault && pollRespStatusClass(m.get("Status")) == "no-match" {
+			h.res.Obs("default_nat_unknown_applied:no-match-response", 1)
+		}
 	}
 	if o, ok := h.decPollRespLegacy("handwritten", rc, data); ok {
-		h.postPollResp(o, rc)
-		lw := cmp
-		if cmp == wantAccept && e.relay != "" {
-			lw = wantFree
-		}
-		h.judgePollResp(o, lw, feat, e, rc, "handwritten", true)
+		one(o, true)
 	}
-	h.distinctHand(nPollResp, want, feat, data)
-	return want
+	h.distinctHand(nPollResp, x.want, x.feat, data)
+	return x.want
 }
 
 func (h *H) handPollResp(r *vlib.Rand, id string) {
@@ -385,14 +472,52 @@ func (h *H) handPollResp(r *vlib.Rand, id string) {
 	var ms []mut
 	if base.get("Status").s == "client match" {
 		ms = append(ms, missingMuts("Offer")...)
-		ms = append(ms, natMuts(r, "NAT", strictPollResponseNAT)...)
 	}
+	ms = append(ms, natMuts(r, "NAT", strictPollResponseNAT)...)
 	for _, s := range []string{"", "Client Match", "client match ", "success", "incorrect relay pattern", "no match "} {
 		ms = append(ms, mut{"status:" + s, false, setField("Status", fs("Status", s))})
 	}
 	ms = append(ms, mut{"status:absent", false, setField("Status", field_(fAbsent))})
 	ms = append(ms, wrongTypeMuts("Status", "Offer", "NAT", "RelayURL")...)
 	h.runMuts(base, ms, id, h.checkHandPollResp)
+
+	// every status class x relay/offer shape x every NAT state
+	offer := genNonEmpty(r, 300)
+	set := func(status field, off, rel field) func(m *hand) {
+		return func(m *hand) {
+			setField("Status", status)(m)
+			setField("Offer", off)(m)
+			setField("RelayURL", rel)(m)
+			setField("NAT", field_(fAbsent))(m)
+		}
+	}
+	abs := field_(fAbsent)
+	other := genNonEmpty(r, 100)
+	if other == "client match" || other == "no match" {
+		other = "x" + other
+	}
+	shapes := []mut{
+		{"match", false, set(fs("Status", "client match"), fs("Offer", offer), abs)},
+		{"match+relay", false, set(fs("Status", "client match"), fs("Offer", offer), fs("RelayURL", "wss://snowflake.torproject.net/"))},
+		{"no-match", false, set(fs("Status", "no match"), abs, abs)},
+		{"no-match+relay", false, set(fs("Status", "no match"), abs, fs("RelayURL", "wss://snowflake.torproject.net/"))},
+		{"no-match+offer", false, set(fs("Status", "no match"), fs("Offer", offer), abs)},
+		{"no-match+empty-members", false, set(fs("Status", "no match"), fs("Offer", ""), fs("RelayURL", ""))},
+		{"other-status:incorrect relay pattern", false, set(fs("Status", "incorrect relay pattern"), abs, abs)},
+		{"other-status:random", false, set(fs("Status", other), fs("Offer", offer), abs)},
+		{"no-status:empty", false, set(fs("Status", ""), fs("Offer", offer), abs)},
+		{"no-status:absent", false, set(abs, abs, abs)},
+	}
+	var reps []mut
+	for _, v := range []string{"", "unknown", "restricted", "unrestricted"} {
+		reps = append(reps, mut{"nat-valid:" + v, false, setField("NAT", fs("NAT", v))})
+	}
+	reps = append(reps, natMuts(r, "NAT", strictPollResponseNAT)...)
+	reps = append(reps, missingMuts("Offer")[1:]...) // null, empty (absent is a shape already)
+	for i := range reps[len(reps)-2:] {
+		reps[len(reps)-2+i].mustReject = false // forbidden only under "client match": the reference decides
+	}
+	h.runCross(base, shapes, reps, id, h.checkHandPollResp)
 }
 
 // ---- proxy answer request ----------------------------------------------------------
@@ -433,6 +558,13 @@ func (h *H) handAnsReq(r *vlib.Rand, id string) {
 	ms = append(ms, missingMuts("Answer")...)
 	ms = append(ms, wrongTypeMuts("Version", "Sid", "Answer")...)
 	h.runMuts(base, ms, id, h.checkHandAnsReq)
+
+	// missing sid / answer under every accepted version spelling
+	var shapes []mut
+	for _, v := range append(append([]string(nil), docVersions...), freeVersions...) {
+		shapes = append(shapes, mut{"version:" + v, false, setField("Version", fs("Version", v))})
+	}
+	h.runCross(base, shapes, append(missingMuts("Sid"), missingMuts("Answer")...), id, h.checkHandAnsReq)
 }
 
 // ---- proxy answer response -----------------------------------------------------------
@@ -583,6 +715,33 @@ func (h *H) handCliReq(r *vlib.Rand, id string) {
 	}
 	ms = append(ms, wrongTypeMuts("offer", "nat", "fingerprint")...)
 	h.runMuts(base, ms, id, h.checkHandCliReq)
+
+	// each forbidden feature under every state of the two optional members
+	natStates := []field{field_(fAbsent), field_(fNull), fs("nat", ""), fs("nat", "unknown"), fs("nat", "restricted"), fs("nat", "unrestricted")}
+	fpStates := []field{field_(fAbsent), field_(fNull), fs("fingerprint", ""), fs("fingerprint", defaultBridgeFP), fs("fingerprint", hexOf(r, r.Bytes(20), 0)), fs("fingerprint", hexOf(r, r.Bytes(32), 2))}
+	var shapes []mut
+	for i, ns := range natStates {
+		for j, fp := range fpStates {
+			ns, fp := ns, fp
+			shapes = append(shapes, mut{fmt.Sprintf("nat-state%d/fp-state%d", i, j), false, func(m *hand) {
+				setField("nat", ns)(m)
+				setField("fingerprint", fp)(m)
+			}})
+		}
+	}
+	reps := missingMuts("offer")
+	for _, v := range []string{"Unknown", "symmetric", " restricted", "нет", longBadNAT} {
+		reps = append(reps, mut{"nat:" + clipS(v), true, setField("nat", fs("nat", v))})
+	}
+	for _, n := range []int{1, 16, 19, 21, 31, 33, 40} {
+		f := fs("fingerprint", hexOf(r, r.Bytes(n), n%3))
+		f.forbid = "fingerprint-length"
+		reps = append(reps, mut{fmt.Sprintf("fingerprint-length:%d", n), true, setField("fingerprint", f)})
+	}
+	nonhex := fs("fingerprint", defaultBridgeFP[:39]+"g")
+	nonhex.forbid = "fingerprint-non-hex"
+	reps = append(reps, mut{"fingerprint-non-hex", true, setField("fingerprint", nonhex)})
+	h.runCross(base, shapes, reps, id, h.checkHandCliReq)
 }
 
 // ---- client poll response -----------------------------------------------------------------
